@@ -1,10 +1,11 @@
 """C06 - see DESIGN.md section 5; decided by the FieldWrap engine (harness/checks/fwcommon.py)."""
-from .fwcommon import replay_fw, run_fw
+from .fwcommon import batch_phase, replay_fw, run_fw
 from ..common import tier
 
 
 def run():
     rep = run_fw("C06", kappas=2 if tier() == "quick" else 6)
+    batch_phase(rep, "C06")
     return rep.finish()
 
 
